@@ -257,8 +257,10 @@ impl RK23 {
                 xold = x;
                 x += h;
 
-                // Prepare dense output
-                if self.dense_output && solout.is_some() {
+                // Prepare dense output (also when only a requested XOut abscissa makes the
+                // callback receive an interpolant for this step)
+                let event = xout.map_or(false, |xo| xo <= x);
+                if (self.dense_output || event) && solout.is_some() {
                     cont[0..n].copy_from_slice(&ye);
                     for i in 0..n {
                         cont[n + i] = k1[i];
@@ -269,7 +271,6 @@ impl RK23 {
 
                 // Optional callback function
                 if let Some(sol) = solout.as_mut() {
-                    let event = xout.map_or(false, |xo| xo <= x);
                     let interpolant = if self.dense_output || event {
                         Some(StepInterpolant::new(&cont, xold, h, Self::interpolate))
                     } else {
